@@ -296,12 +296,113 @@ def singletons(ver, rng, nbases):
     return out
 
 
+def corners(ver, rng, n):
+    """'corner' vectors: every metric takes the FIRST or the LAST value of its legal list (the extremes of the
+    specification's scales; 10% any value), each optional metric is absent / Not Defined / an extreme.  Concentrates the
+    sample where caps, clamps and rounding boundaries of the equations bind (e.g. v2 C:C/I:C/A:C, v3 0.915 cap)."""
+    V = VOCAB[ver]
+    out = []
+    for _ in range(n):
+        a = {}
+        p_abs = rng.choice([0.2, 0.5, 0.8])
+        for m, vals in V["vocab"]:
+            ext = [v for v in (vals[0], vals[-1], vals[-2] if len(vals) > 2 else vals[0]) if v != V["nd"]] or vals
+            v = rng.choice(vals) if rng.random() < 0.1 else rng.choice(ext)
+            if m in V["mandatory"]:
+                a[m] = v
+            else:
+                x = rng.random()
+                if x < p_abs:
+                    continue
+                a[m] = V["nd"] if (x < p_abs + 0.1 and V["nd"] in vals) else v
+        out.append(render(ver, a, rng))
+    return out
+
+
+def v2_cap_family(rng, n_per_base=60):
+    """v2 vectors with Complete C/I/A impact (the adjusted impact exceeds 10 and `min(10, .)` binds) for all 27
+    exploitability combinations, with random temporal / environmental metrics and the requirement metrics mostly
+    OMITTED or spelled ND (the spellings for which an implementation is tempted to skip the adjusted equations)"""
+    import itertools
+    V = VOCAB["2"]
+    out = []
+    for av, ac, au in itertools.product(V["legal"]["AV"], V["legal"]["AC"], V["legal"]["Au"]):
+        for _ in range(n_per_base):
+            f = ["AV:" + av, "AC:" + ac, "Au:" + au, "C:C", "I:C", "A:C"]
+            for m in ("E", "RL", "RC", "CDP", "TD"):
+                if rng.random() < 0.6:
+                    f.append("%s:%s" % (m, rng.choice(V["legal"][m])))
+            mode = rng.random()
+            for m in ("CR", "IR", "AR"):
+                if mode < 0.5:
+                    continue
+                if mode < 0.7:
+                    f.append(m + ":ND")
+                elif rng.random() < 0.7:
+                    f.append("%s:%s" % (m, rng.choice(V["legal"][m])))
+            out.append("/".join(f))
+    return out
+
+
+_TIES = None
+
+
+def ties(ver):
+    """frozen INPUTS (tools/freeze_ties.py): vectors whose exact value lies on a rounding tie, found with the Lean
+    specification; rating-boundary ties first"""
+    global _TIES
+    if _TIES is None:
+        try:
+            _TIES = json.load(open(os.path.join(os.path.dirname(os.path.dirname(os.path.abspath(__file__))), "ties.json")))
+        except Exception:  # noqa
+            _TIES = {}
+    return list(_TIES.get(ver, []))
+
+
+def full_spelling(ver, rng, n):
+    """EVERY metric of the version spelled out (optional ones Not Defined with probability 0.4), random field order"""
+    V = VOCAB[ver]
+    out = []
+    for _ in range(n):
+        a = {}
+        for m, vals in V["vocab"]:
+            if m not in V["mandatory"] and V["nd"] in vals and rng.random() < 0.4:
+                a[m] = V["nd"]
+            else:
+                a[m] = rng.choice(vals)
+        out.append(render(ver, a, rng))
+    return out
+
+
+def special(ver, rng, n):
+    """the special families of a version beyond singletons: corners, every-metric-spelled-out vectors, frozen rounding
+    ties (+ the v2 cap family)"""
+    out = corners(ver, rng, n) + full_spelling(ver, rng, max(20, n // 10)) + ties(ver)
+    if ver == "2":
+        out += v2_cap_family(rng, max(8, n // 40))
+    return out
+
+
+def optional_only(ver, rng, n):
+    """strings made of optional metrics only (no base metric at all), e.g. what temporal_vector() /
+    environmental_vector() print: well-formed, but every mandatory metric is missing"""
+    V = VOCAB[ver]
+    opt = [m for m in V["order"] if m not in V["mandatory"]]
+    out = []
+    for _ in range(n):
+        k = rng.randrange(1, len(opt) + 1)
+        ms = rng.sample(opt, k) if rng.random() < 0.5 else [m for m in opt if rng.random() < 0.7] or opt[:1]
+        body = "/".join("%s:%s" % (m, rng.choice(V["legal"][m])) for m in ms)
+        out.append(rng.choice(PREFIX[ver]) + body)
+    return out
+
+
 ALPHABET = "AVCNLHPXSEMRUITDOFWY:/.0123456789 acnlx_-\t"
 
 
 def edit(s, rng, ver):
     """one edit of the kinds named in C04"""
-    kind = rng.randrange(18)
+    kind = rng.randrange(20)
     fields = s.split("/")
     if kind == 0 and s:  # delete a character
         i = rng.randrange(len(s))
@@ -382,6 +483,19 @@ def edit(s, rng, ver):
         f = rng.choice([m + "X:" + rng.choice(vals), "Z" + m + ":" + rng.choice(vals), m + ":" + rng.choice(vals) + "X",
                         m + ":", m, m.lower() + ":" + rng.choice(vals), m + ":" + rng.choice(vals).lower()])
         return "/".join(fields[:i] + [f] + fields[i:])
+    if kind == 18 and fields:  # another letter case of a whole metric or value token of the vector itself
+        i = rng.randrange(len(fields))
+        if ":" in fields[i]:
+            m, v = fields[i].split(":", 1)
+            fields[i] = rng.choice([m + ":" + v.upper(), m + ":" + v.lower(), m + ":" + v.capitalize(), m.lower() + ":" + v,
+                                    m.upper() + ":" + v, m.capitalize() + ":" + v, m.lower() + ":" + v.lower()])
+            return "/".join(fields)
+    if kind == 19:  # value tokens whose case variants exist in the vocabulary (e.g. v4 U:Clear/Green/Amber/Red)
+        mixed = [(m, v) for m, vals in VOCAB[ver]["vocab"] for v in vals if v != v.upper()]
+        if mixed:
+            m, v = rng.choice(mixed)
+            body = [f for f in fields if not f.startswith(m + ":")]
+            return "/".join(body + ["%s:%s" % (m, rng.choice([v.upper(), v.lower(), v.swapcase(), v]))])
     return s + rng.choice(ALPHABET)
 
 
